@@ -1,15 +1,21 @@
 #!/bin/bash
-# usage: tools/refactormatrix.sh <dir with */NN.diff> — runs every check on every behaviour-preserving refactoring; any VIOLATION is a false alarm
-ROOT="$(realpath "${1:-/verif/refactors}")"
+# usage: tools/refactormatrix.sh <dir with */NN.diff> [workers] — runs every check on every behaviour-preserving refactoring; any VIOLATION is a false alarm
+ROOT="$(realpath "${1:-/verif/refactors}")"; W="${2:-6}"
 export GOFLAGS=-mod=mod GOPROXY=off GOSUMDB=off GOTOOLCHAIN=local GOWORK=off
-for pf in $(ls $ROOT/*/*.diff | sort); do
+DV=$(mktemp /tmp/dcpverif.XXXXXX); cp /verif/bin/dcpverif "$DV"; chmod +x "$DV"
+trap 'rm -f "$DV"' EXIT
+one() {
+  pf="$1"; ROOT="$2"; DV="$3"
   D=$(mktemp -d /tmp/refrun.XXXXXX)
   rsync -a --exclude .git /repo/ "$D/repo/"
-  (cd "$D/repo" && patch -p1 -s -f < "$pf") >/dev/null 2>&1 || { echo "$(echo $pf | sed "s#$ROOT/##") PATCH-FAILED"; rm -rf "$D"; continue; }
-  out=$(/verif/bin/dcpverif -prop all -repo "$D/repo" -out /verif -no-evidence 2>&1)
+  (cd "$D/repo" && patch -p1 -s -f < "$pf") >/dev/null 2>&1 || { echo "$(echo $pf | sed "s#$ROOT/##") PATCH-FAILED"; rm -rf "$D"; return; }
+  out=$("$DV" -prop all -repo "$D/repo" -out /verif -no-evidence 2>&1)
+  n=$(echo "$out" | grep -c " obligations, ")
   fired=$(echo "$out" | grep -oE "^VIOLATION property=C[0-9]+" | sed 's/VIOLATION property=//' | tr '\n' ' ')
   rules=$(echo "$out" | grep -E "^\s+\[(violated|undecided)\]" | sed -E 's/^\s+\[(violated|undecided)\] ([^@]+).*/\2/' | sort -u | tr '\n' ';')
-  res="silent"; [ -n "$fired" ] && res="ALARM"
+  res="silent"; [ -n "$fired" ] && res="ALARM"; [ "$n" -eq 20 ] || res="CHECKER-ERROR($n)"
   echo "$(echo $pf | sed "s#$ROOT/##") $res fired=[$fired] $rules"
   rm -rf "$D"
-done
+}
+export -f one
+ls $ROOT/*/*.diff | sort | xargs -P "$W" -I{} bash -c 'one "$@"' _ {} "$ROOT" "$DV" | sort -V
